@@ -56,7 +56,10 @@ fn unary3<T: Dom>(c: VK, b: VK, a: VK, k: usize) {
         xs.push(x);
         chain.update(x);
         sa.update(x);
-        if let Some(v) = sa.last() { sb.update(v); if let Some(w) = sb.last() { sc.update(w); } }
+        // the statement applied twice: B is fed when A has an output; C is fed when (B over A) has an output — which, for a B that
+        // answers before it has been fed anything (HLNormalizer: Some(0)), is earlier than B's first update
+        if let Some(v) = sa.last() { sb.update(v); }
+        if let Some(w) = sb.last() { sc.update(w); }
         T::oblige(&format!("{name} t={t}: chain output identical to the stand-alone pipeline"), opt_ident(chain.last(), sc.last()));
         if let Some(log) = &log { T::oblige(&format!("{name} t={t}: the leaf received every raw input exactly once, in order"), delivered(log, &xs)); }
     }
@@ -76,16 +79,17 @@ fn combine<T: Dom>(op: usize, a: VK, c: VK, outer: Option<VK>, k: usize) {
         let x = T::input(&format!("x{t}"));
         if positive { T::assume(lt(T::zero(), x)); }
         xs.push(x);
-        chain.update(x);
         sa.update(x);
         sc.update(x);
         let want = match (sa.last(), sc.last()) {
             (Some(p), Some(q)) => {
-                // Divide is in-domain only for a non-zero divisor: on the comparison branch where it is zero the scenario ends here
+                // Divide is in-domain only for a non-zero divisor: on the comparison branch where it is zero the scenario ends here (before
+                // the chain is updated: Divide asserts on its divisor inside update())
                 if op == 3 && q == T::zero() { T::oblige(&format!("{name} t={t}: divisor is zero on this path (out of domain, scenario ends)"), Cond::Bool(true)); return; }
                 Some(match op { 0 => p + q, 1 => p - q, 2 => p * q, _ => p / q }) }
             _ => None,
         };
+        chain.update(x);
         let want = match so.as_mut() { Some(o) => { if let Some(w) = want { o.update(w); } o.last() } None => want };
         T::oblige(&format!("{name} t={t}: reports exactly when both children do, the identical value"), opt_ident(chain.last(), want));
         T::oblige(&format!("{name} t={t}: both leaves received every raw input exactly once, in order"), Cond::And(log1.iter().chain(log2.iter()).map(|l| delivered(l, &xs)).collect()));
@@ -168,6 +172,9 @@ pub fn units(tier: Tier, seed: u64) -> Vec<Unit> {
     let _ = first_static;
     for x in u.iter_mut() { x.path_cap = 4000; x.budget_s = if q { 4.0 } else { 12.0 }; x.branch_nl_timeout_ms = Some(if q { 150 } else { 500 }); if q { x.path_cap = 1500; } }
     u.extend(crate::props::c01_static::units(q));
+    // chains are built from arbitrary catalogue views: an inner view may leave the outer one's domain (Divide by an exact zero, LnReturn or
+    // Drawdown over a non-positive inner output); such a panic ends the scenario, it says nothing about chaining (panic-freedom is C15's)
+    for x in u.iter_mut() { x.panic_is_violation = false; }
     u
 }
 pub fn meta() -> Meta {
